@@ -47,6 +47,45 @@ def _assert_src():
 _PREC = None
 
 
+def _cov_start():
+    """Optional line coverage of the code under test (VF_COV=<abs dir>): sys.monitoring LINE events, each location
+    disabled after its first hit, so the cost is negligible. Used by tools/covreport.py to find behaviour behind a
+    property that no generated case reaches; not part of any verdict."""
+    out = os.environ.get("VF_COV")
+    if not out or not hasattr(sys, "monitoring"):
+        return None
+    root = os.path.join(os.path.realpath(os.environ.get("VF_SRC", "/repo")), "demeter") + os.sep
+    hit = set()
+    mon = sys.monitoring
+    tool = mon.COVERAGE_ID
+    try:
+        mon.use_tool_id(tool, "vfcov")
+    except ValueError:
+        pass
+
+    def on_line(code, line):
+        fn = code.co_filename
+        if fn.startswith(root):
+            hit.add((fn[len(root):], line))
+        return mon.DISABLE
+
+    mon.register_callback(tool, mon.events.LINE, on_line)
+    mon.set_events(tool, mon.events.LINE)
+    mon.restart_events()
+    return hit
+
+
+def _cov_stop(hit, spec):
+    if hit is None:
+        return
+    mon = sys.monitoring
+    mon.set_events(mon.COVERAGE_ID, 0)
+    out = os.environ["VF_COV"]
+    os.makedirs(out, exist_ok=True)
+    with open(os.path.join(out, f"{spec.get('sub', 'x')}-{spec.get('idx', 0)}-{os.getpid()}.json"), "w") as f:
+        json.dump(sorted(hit), f)
+
+
 def _worker(arg):
     modname, spec = arg
     _quiet()
@@ -59,7 +98,9 @@ def _worker(arg):
             decimal.getcontext().prec = _PREC
         mod = importlib.import_module(modname)
         t0 = time.time()
+        cov = _cov_start()
         res = mod.run_shard(spec)
+        _cov_stop(cov, spec)
         res["wall"] = time.time() - t0
         res["spec"] = {k: v for k, v in spec.items() if k in ("sub", "idx", "seed", "n")}
         return res
